@@ -6,7 +6,7 @@ import Crusta.Proofs.DynHistory
 
 Model and tie as for C08.  `update_call_contract` is proved for the buffered solvers of all three
 semantics (the update path does not depend on the semantics); the statement about later answers
-is `C08.dynamic_answers_for_current_framework` (complete and stable solvers), whose framework is
+is `C08.dynamic_answers_for_current_framework` (complete, stable and preferred solvers), whose framework is
 `runOps ops`: a history in which rejected or redundant updates have no effect.
 -/
 
@@ -27,15 +27,15 @@ theorem update_call_contract {sem : DSem} {d : DState} {w : World} (h : QInv sem
      (d.update op).2 = .err ∧ d.pending.step op = .err d.pending ∧ (d.update op).1 = d) ∧
     ((d.update op).1.pending = d.pending → (d.update op).1 = d) := update_preserves h op
 
-/-- for every reachable state of the complete and stable solvers the contract applies, and the
+/-- for every reachable state of the three solvers (complete, stable, preferred) the contract applies, and the
 pending framework is the one obtained from the calls made so far with the rejected ones dropped -/
-theorem reachable_states_keep_contract {sem : DSem} (hsem : sem ≠ .PR) {fuel : Nat} {ops : List StoreOp}
+theorem reachable_states_keep_contract {sem : DSem} {fuel : Nat} {ops : List StoreOp}
     {d : DState} {w : World} (hreach : Reach sem fuel ops d w) (op : StoreOp) :
     Store.runOps Store.empty ops = some d.pending ∧
     Store.runOps Store.empty (ops ++ [op]) = some (d.update op).1.pending ∧
     ((d.update op).2 = .err → (d.update op).1 = d) := by
-  obtain ⟨hq, _, hops⟩ := reach_inv hsem hreach
-  obtain ⟨_, _, hops'⟩ := reach_inv hsem (Reach.update op hreach)
+  obtain ⟨hq, _, hops⟩ := reach_inv hreach
+  obtain ⟨_, _, hops'⟩ := reach_inv (Reach.update op hreach)
   refine ⟨hops, hops', ?_⟩
   intro herr
   rcases (update_preserves hq op).2.1 with ⟨hok, _⟩ | ⟨_, _, hd⟩
